@@ -285,3 +285,22 @@ func silence() {
 	restful.EnableTracing(false)
 	log.SetOutput(ioutil.Discard)
 }
+
+// setRouter configures the container's router the way an application may: possibly after having set another
+// one first (the final configuration is what counts). k selects the history deterministically per case.
+func setRouter(c *restful.Container, router int, k int) {
+	switch k % 4 {
+	case 1:
+		c.Router(restful.RouterJSR311{})
+	case 2:
+		c.Router(restful.CurlyRouter{})
+	case 3:
+		c.Router(restful.RouterJSR311{})
+		c.Router(restful.CurlyRouter{})
+	}
+	if router == 1 {
+		c.Router(restful.RouterJSR311{})
+	} else {
+		c.Router(restful.CurlyRouter{})
+	}
+}
